@@ -224,7 +224,7 @@ def gen_path(r, regions, opts):
             else:
                 ops.append(("at", "ExcludeRegion", r.choice(["on", "enable"])))
             enabled = not enabled
-            if r.random() < 0.4:
+            if r.random() < (0.85 if opts.get("at_junk") else 0.4):
                 ops.append(("at", r.choice(["ExcludeRegion", "ExcludeRegion", "Other", "Region"]),
                             r.choice(["bogus", "", "offf", "turn off", "not on", "x off", "go on", "stop"])))
         elif k < 0.96 and opts.get("arcs") and (absmode or opts.get("rel_arcs")) \
